@@ -1037,8 +1037,18 @@ class Interp:
         fr.ctx.append(("for", st.lineno, itr))     # the iterator position is part of the control state (cut keys)
         if type(itr).__name__ == "SymRangeIter" and isinstance(st.target, ast.Name):
             itr.owner = (fr, st.target.id)
+        mark = getattr(itr, "pyvc_loop_head", None)
         try:
             while True:
+                if mark is not None:
+                    # loop over a collection of arbitrary length (harness iterable): the loop head is an observable
+                    # synchronisation point of a bisimulation (joint cut point = loop invariant), never a real yield:
+                    # it is only ever resumed with send(None)
+                    fr.loc = ("loop-head", st.lineno, st.col_offset)
+                    self.nyields += 1
+                    tok = yield ("Y", mark)
+                    if tok != ("send", None):
+                        raise EngineError("loop-head marker resumed with something other than send(None)")
                 try:
                     x = yield from self.iter_next(itr)
                 except _IterStop:
